@@ -24,6 +24,7 @@ def tasks(tier, seed):
                     t.append(("contracts.gemini_invariance", "task", (cls, ovo, n, K, "empty", seed), to, tag + ",empty]"))
                 if (n, K) == (2, 2):
                     t.append(("contracts.gemini_invariance", "task", (cls, ovo, n, K, "empty2", seed), to, tag + ",empty2]"))
+                    t.append(("contracts.gemini_invariance", "task", (cls, ovo, n, K, "empty-perm", seed), to, tag + ",empty-perm]"))
     return t
 
 
